@@ -214,8 +214,8 @@ Section Step.
     assert (Hdl : (d < length strs)%nat) by (rewrite Hlen; exact Hd).
     set (t := nth d strs []).
     match goal with |- context [Some (if ?c then sb else ?r)] => set (cond := c); set (lb := if cond then sb else r) end.
-    destruct (upd_split [] d strs ((Some c1, Some lb) :: t) Hdl) as (pre & post & Es & Epre & Eupd).
-    fold t in Es.
+    destruct (upd_split [] d strs ((Some c1, Some lb) :: t) Hdl) as (pre & post & Es0 & Epre & Eupd).
+    assert (Es : strs = pre ++ t :: post) by exact Es0. clear Es0.
     (* split the shape and the divisibility facts at d *)
     pose proof Hdiv as Hdiv'. rewrite Es in Hdiv'.
     destruct (Forall2_split_nth _ _ _ _ _ Hdiv') as (spre & n & spost & Esh & Elsp & Dpre & Dt & Dpost).
@@ -226,8 +226,8 @@ Section Step.
     assert (Htpos : tile_pos t).
     { rewrite Forall_forall in Hpos. apply Hpos. rewrite Es. apply in_or_app. right. left. reflexivity. }
     pose proof (bounds_prod_pos t (tile_pos_ok t Htpos)) as HP.
-    destruct Dt as [m Hm]. fold t in Hm.
-    assert (Hmpos : 0 < m) by (clear - Hm Hnpos HP; nia).
+    destruct Dt as [m Hm0]. assert (Hm : n = m * bounds_prod t) by exact Hm0. clear Hm0.
+    assert (Hmpos : 0 < m) by (apply (Z.mul_pos_cancel_r _ _ HP); lia).
     assert (Hrem : n / bounds_prod t = m) by (rewrite Hm; apply Z.div_mul; lia).
     (* the chosen bound is positive and keeps divisibility *)
     assert (Hlb : 0 < lb /\ (lb * bounds_prod t | n)).
@@ -237,7 +237,8 @@ Section Step.
         apply Z.mod_divide in E; [|lia]. destruct E as [q Hq]. exists q. rewrite Hm, Hq. lia.
       - rewrite Hn, Hrem. split; [lia|]. exists 1. lia. }
     destruct Hlb as [Hlbpos Hlbdiv].
-    rewrite Eupd.
+    match goal with |- Inv _ (_, ?u) => replace u with (pre ++ ((Some c1, Some lb) :: t) :: post) by (symmetry; exact Eupd) end.
+    clear Eupd. clearbody lb. clear cond. clearbody t. clearbody c1.
     assert (Hnewpos : tile_pos ((Some c1, Some lb) :: t)).
     { constructor; [|exact Htpos]. exists c1, lb. repeat split; lia. }
     (* decomposition of an index of the new box *)
@@ -253,9 +254,9 @@ Section Step.
       rewrite bounds_prod_cons_pos in Bx by lia.
       assert (Hl : length ipre = length pre) by (apply F2_length in B1; rewrite map_length in B1; exact B1).
       exists ipre, x, ipost. repeat split; try assumption; try lia.
-      - unfold box, pshape. rewrite Es, map_app. cbn [map]. apply Forall2_app; [exact B1|].
-        constructor; [|exact Bpost]. apply Z.mod_pos_bound. lia.
-      - rewrite Es. rewrite !affine_addr_app by exact Hl. cbn [affine_addr].
+      - unfold box, pshape. rewrite map_app. cbn [map]. apply Forall2_app; [exact B1|].
+        constructor; [|exact Bpost]. change (0 <= x mod bounds_prod t < bounds_prod t). apply Z.mod_pos_bound. lia.
+      - rewrite !affine_addr_app by exact Hl. cbn [affine_addr].
         rewrite dim_addr_cons by (try assumption; lia). lia. }
     constructor; cbn [fst snd].
     - nia.
@@ -273,12 +274,149 @@ Section Step.
       destruct (Hdec j Hj) as (jpre & y & jpost & -> & Hl' & Hy & Hold' & Ej).
       rewrite Ei, Ej in Heq.
       pose proof (Hbnd _ Hold) as B1. pose proof (Hbnd _ Hold') as B2.
-      destruct (mixed_radix_step c1 _ _ _ _ ltac:(lia) ltac:(lia) Heq) as [Eq Er].
+      destruct (mixed_radix_step c1 _ _ _ _ (conj (proj1 B1) (Z.lt_le_trans _ _ _ (proj2 B1) Hc1))
+                 (conj (proj1 B2) (Z.lt_le_trans _ _ _ (proj2 B2) Hc1)) Heq) as [Eq Er].
       specialize (Hinj _ _ Hold Hold' Er).
-      destruct (app_inj_len _ _ _ _ ltac:(lia) Hinj) as [-> Hrest].
+      assert (Hll : length ipre = length jpre) by (rewrite Hl, Hl'; reflexivity).
+      destruct (app_inj_len _ _ _ _ Hll Hinj) as [-> Hrest].
       inversion Hrest as [[Hmod Hpost]]. subst jpost.
       assert (x = y).
       { rewrite (Z.div_mod x (bounds_prod t)) by lia. rewrite (Z.div_mod y (bounds_prod t)) by lia. rewrite Eq, Hmod. reflexivity. }
       subst. reflexivity.
   Qed.
 End Step.
+
+(* ================================================================================ *)
+(* 5. the whole loop, fill-up and canonicalize                                        *)
+(* ================================================================================ *)
+Definition col_ok (s : sched) (c : nat * Z * list Z) : Prop :=
+  0 < snd (fst c) /\ length (snd c) = length (s_rows s).
+
+Lemma rev_columns_ok s : Forall (fun b => 0 < b) (s_bounds s) -> Forall (col_ok s) (rev_columns s).
+Proof.
+  intros Hb. unfold rev_columns. apply Forall_forall. intros c Hc.
+  apply in_map_iff in Hc as [k [<- Hk]]. apply in_seq in Hk. unfold col_ok. cbn [fst snd]. split.
+  - rewrite Forall_forall in Hb. apply Hb. apply nth_In. lia.
+  - unfold column. apply map_length.
+Qed.
+
+Lemma loop_preserves tiled spatial bw s shape :
+  Forall (fun n => 0 < n) shape -> length (s_rows s) = length shape ->
+  forall cols st, Forall (col_ok s) cols -> Inv shape st ->
+  Inv shape (fold_left (step_c tiled spatial bw s shape) cols st).
+Proof.
+  intros Hs Hr. induction cols as [|c cols IH]; intros st Hc HI; cbn [fold_left]; [exact HI|].
+  inversion Hc as [|? ? [Hc1 Hc2] Hrest]; subst. apply IH; [exact Hrest|].
+  unfold step_c. apply step_preserves; assumption.
+Qed.
+
+Definition wf_input (s : sched) (shape : list Z) : Prop :=
+  Forall (fun b => 0 < b) (s_bounds s) /\ Forall (fun n => 0 < n) shape /\ length (s_rows s) = length shape.
+Definition wf_inputb (s : sched) (shape : list Z) : bool :=
+  forallb (fun b => 0 <? b) (s_bounds s) && forallb (fun n => 0 <? n) shape && Nat.eqb (length (s_rows s)) (length shape).
+Lemma wf_inputb_ok s shape : wf_inputb s shape = true <-> wf_input s shape.
+Proof.
+  unfold wf_inputb, wf_input. rewrite !andb_true_iff, !forallb_forall, !Forall_forall, Nat.eqb_eq.
+  split; intros [[H1 H2] H3] || intros [H1 [H2 H3]]; repeat split; try assumption; intros x Hx;
+    (specialize (H1 x) || idtac); (specialize (H2 x) || idtac); auto; lia.
+Qed.
+
+Theorem assign_loop_inv tiled spatial bw s shape :
+  wf_input s shape -> Inv shape (assign_loop tiled spatial bw s shape).
+Proof.
+  intros (Hb & Hs & Hr). unfold assign_loop.
+  apply (loop_preserves tiled spatial bw s shape Hs Hr (rev_columns s) _ (rev_columns_ok s Hb) (Inv_init shape Hs)).
+Qed.
+
+Definition fill1 (c : Z) (t : tstride) : tstride := match t with [] => [(Some c, Some 1)] | _ => t end.
+Lemma fill_up_map st : fill_up st = map (fill1 (fst st)) (snd st).
+Proof. reflexivity. Qed.
+
+Lemma fill1_pos c t : 0 < c -> tile_pos t -> tile_pos (fill1 c t).
+Proof.
+  intros Hc Ht. destruct t; [|exact Ht]. constructor; [|constructor]. exists c, 1. repeat split; lia.
+Qed.
+Lemma fill1_prod c t : bounds_prod (fill1 c t) = bounds_prod t.
+Proof. destruct t; reflexivity. Qed.
+Lemma fill1_addr c t x : 0 <= x < bounds_prod t -> dim_addr (fill1 c t) x = dim_addr t x.
+Proof.
+  destruct t; [|reflexivity]. intros Hx. change (bounds_prod []) with 1 in Hx.
+  assert (x = 0) by lia. subst. cbn. lia.
+Qed.
+
+Lemma fill_up_spec c strs : 0 < c -> Forall tile_pos strs ->
+  Forall tile_pos (map (fill1 c) strs) /\ pshape (map (fill1 c) strs) = pshape strs /\
+  forall idx, box (pshape strs) idx -> affine_addr (map (fill1 c) strs) idx = affine_addr strs idx.
+Proof.
+  intros Hc Hp. split; [|split].
+  - apply Forall_forall. intros t Ht. apply in_map_iff in Ht as [t0 [<- Hin]]. apply fill1_pos; [exact Hc|].
+    rewrite Forall_forall in Hp. apply Hp, Hin.
+  - unfold pshape. rewrite map_map. apply map_ext. intros t. apply fill1_prod.
+  - clear Hp. induction strs as [|t strs IH]; intros idx Hb; [reflexivity|].
+    unfold box, pshape in Hb. cbn [map] in Hb. inversion Hb as [|x ? idx' ? Hx Hrest]; subst.
+    cbn [map affine_addr]. rewrite fill1_addr by exact Hx. f_equal. apply IH. exact Hrest.
+Qed.
+
+Lemma raw_layout_facts tiled spatial bw s shape : wf_input s shape ->
+  let st := assign_loop tiled spatial bw s shape in
+  let raw := raw_layout tiled spatial bw s shape in
+  layout_ok raw /\ shape_of raw = pshape (snd st) /\
+  forall idx, box (pshape (snd st)) idx -> affine_map_eval raw idx = affine_addr (snd st) idx.
+Proof.
+  intros Hwf st raw. pose proof (assign_loop_inv tiled spatial bw s shape Hwf) as HI. fold st in HI.
+  destruct (fill_up_spec (fst st) (snd st) (inv_cs _ _ HI) (inv_pos _ _ HI)) as (F1 & F2 & F3).
+  unfold raw, raw_layout. fold st. rewrite fill_up_map. split; [|split].
+  - unfold layout_ok. cbn [tstrides]. eapply Forall_impl; [|exact F1]. apply tile_pos_ok.
+  - unfold shape_of. cbn [tstrides]. exact F2.
+  - intros idx Hb. unfold affine_map_eval. cbn [tstrides]. apply F3, Hb.
+Qed.
+
+(* layout_injective (on the layout's own index box): for all schedules (any dimension order, reduction and
+   broadcast dimensions, any coefficients), positive bounds and shapes, element widths and both modes, two
+   distinct indices never get the same address *)
+Theorem layout_injective_own tiled spatial bw s shape : wf_input s shape ->
+  let L := assign_layout tiled spatial bw s shape in
+  forall i j, box (shape_of L) i -> box (shape_of L) j ->
+    affine_map_eval L i = affine_map_eval L j -> i = j.
+Proof.
+  intros Hwf L i j Hi Hj Heq.
+  destruct (raw_layout_facts tiled spatial bw s shape Hwf) as (R1 & R2 & R3).
+  pose proof (assign_loop_inv tiled spatial bw s shape Hwf) as HI.
+  unfold L, assign_layout in *. rewrite canonicalize_shape in Hi, Hj by exact R1.
+  rewrite !canonicalize_affine_map in Heq by assumption.
+  rewrite R2 in Hi, Hj. rewrite !R3 in Heq by assumption.
+  exact (inv_inj _ _ HI i j Hi Hj Heq).
+Qed.
+
+(* every address is non-negative and the layout offset is 0 *)
+Theorem layout_addr_nonneg tiled spatial bw s shape : wf_input s shape ->
+  let L := assign_layout tiled spatial bw s shape in
+  offset L = Some 0 /\ forall i, box (shape_of L) i -> 0 <= affine_map_eval L i.
+Proof.
+  intros Hwf L. split; [reflexivity|]. intros i Hi.
+  destruct (raw_layout_facts tiled spatial bw s shape Hwf) as (R1 & R2 & R3).
+  pose proof (assign_loop_inv tiled spatial bw s shape Hwf) as HI.
+  unfold L, assign_layout in *. rewrite canonicalize_shape in Hi by exact R1.
+  rewrite canonicalize_affine_map by assumption. rewrite R2 in Hi. rewrite R3 by assumption.
+  apply (inv_bnd _ _ HI i Hi).
+Qed.
+
+(* existing_bound | shape at every point: the tile bounds of every dimension multiply to a divisor of the
+   operand dimension, so `shape // existing_bound` never floors *)
+Theorem layout_divides tiled spatial bw s shape : wf_input s shape ->
+  Forall2 (fun p n => (p | n)) (shape_of (assign_layout tiled spatial bw s shape)) shape.
+Proof.
+  intros Hwf. destruct (raw_layout_facts tiled spatial bw s shape Hwf) as (R1 & R2 & _).
+  pose proof (assign_loop_inv tiled spatial bw s shape Hwf) as HI.
+  unfold assign_layout. rewrite canonicalize_shape by exact R1. rewrite R2.
+  pose proof (inv_div _ _ HI) as Hd. unfold pshape.
+  revert Hd. generalize (snd (assign_loop tiled spatial bw s shape)). clear.
+  intros l Hd. induction Hd; cbn [map]; constructor; assumption.
+Qed.
+
+Lemma assign_layout_ok tiled spatial bw s shape : wf_input s shape ->
+  layout_ok (assign_layout tiled spatial bw s shape).
+Proof.
+  intros Hwf. destruct (raw_layout_facts tiled spatial bw s shape Hwf) as (R1 & _).
+  apply canonicalize_ok. exact R1.
+Qed.
